@@ -179,6 +179,11 @@ fn transform(
     operands: &mut Vec<Coor4D>,
     ctx: &Plain,
 ) -> Result<usize, geodesy::Error> {
+    // Nothing to do (empty input, or an input filling the previous batches exactly)
+    if operands.is_empty() {
+        return Ok(0);
+    }
+
     let output_dimension = options.dimension.unwrap_or(number_of_dimensions_in_input);
 
     // When roundtripping, we must keep a copy of the input to be able
